@@ -1,5 +1,5 @@
 SPECIFICATION Spec
-CONSTANTS Mode = "state"  Retries = 2  MaxSteps = 3
+CONSTANTS Mode = "state"  Retries = 2  MaxSteps = 4
 INVARIANTS Agree Prefix GhostTracks
 VIEW View
 CHECK_DEADLOCK FALSE
